@@ -33,7 +33,7 @@ func loadWorld(repo, stubsDir string) (*World, error) {
 			return nil, fmt.Errorf("load: %v", e)
 		}
 	}
-	prog, spkgs := ssautil.AllPackages(pkgs, ssa.InstantiateGenerics)
+	prog, spkgs := ssautil.AllPackages(pkgs, ssa.InstantiateGenerics|ssa.GlobalDebug)
 	prog.Build()
 	w.prog = prog
 	for _, sp := range spkgs {
@@ -156,7 +156,7 @@ func (w *World) resolveTypeSafe(pkg *types.Package, text string) (gt types.Type,
 }
 
 func (w *World) scratch(pkg *types.Package) (*State, *Env) {
-	x := &Exec{w: w, trivial: map[string]int{}, trivialMeta: map[string]*Goal{}, ghostVars: w.ghostVars, notes: map[string]bool{}, usedSpecs: map[string]bool{},
+	x := &Exec{w: w, trivial: map[string]int{}, trivialMeta: map[string]*Goal{}, boundSites: map[string]bool{}, boundLoops: map[string]bool{}, ghostVars: w.ghostVars, notes: map[string]bool{}, usedSpecs: map[string]bool{},
 		loops: map[*ssa.Function]*loopAnalysis{}, inlined: map[string]bool{}}
 	for _, sp := range w.pkgs {
 		if sp.Pkg == pkg {
@@ -168,7 +168,7 @@ func (w *World) scratch(pkg *types.Package) (*State, *Env) {
 			}
 		}
 	}
-	s := &State{w: w, x: x, heap: map[string]Term{}, declared: map[string]bool{}, ghost: map[string]Term{},
+	s := &State{w: w, x: x, heap: map[string]Term{}, declared: map[string]bool{}, ghost: map[string]Term{}, freshRefs: map[string]bool{}, dirty: map[string]bool{},
 		closures: map[string]*ClosureVal{}, oldHeap: map[string]Term{}, oldGhost: map[string]Term{}}
 	s.alloc = Term{"0", "Int"}
 	env := &Env{s: s, vars: map[string]SVal{}, heap: s.heap, ghost: s.ghost, alloc: s.alloc, pkg: pkg}
